@@ -7,7 +7,7 @@ T = '''#! unit: %(lc)s.ctor
 #! mode: proof
 #! entry: h_ctor
 #! enforce: %(cls)s_ctor
-#! replace: IMS_ctor IMS_skip IMS_can_read IMS_read_obj IMS_read_buf IMS_read_vec IMS_read_uint8_t IMS_read_uint16_t IMS_read_uint32_t IMS_read_be_uint16_t IMS_read_be_uint32_t IMS_read_le_uint16_t IMS_read_le_uint32_t IMS_pointer IMS_size IMS_size_set IMS_bool PDU_set_inner tins_add_option_range tins_add_option_sized tins_add_option_empty %(xreplace)s Internals_pdu_from_flag Internals_pdu_from_flag4 Internals_pdu_from_dlt_flag %(news)s
+#! replace: IMS_skip IMS_can_read IMS_read_obj IMS_read_buf IMS_read_vec IMS_read_uint8_t IMS_read_uint16_t IMS_read_uint32_t IMS_read_be_uint16_t IMS_read_be_uint32_t IMS_read_le_uint16_t IMS_read_le_uint32_t IMS_pointer IMS_size IMS_size_set IMS_bool PDU_set_inner tins_add_option_range tins_add_option_sized tins_add_option_empty %(xreplace)s Internals_pdu_from_flag Internals_pdu_from_flag4 Internals_pdu_from_dlt_flag %(news)s
 #! anchors: %(cls)s::%(cls)s(const uint8_t*, uint32_t) (%(src)s)%(anch)s
 #! assumed: cursor methods by their contracts (cursor.* units); construction of the next layer by a stub contract (the range handed over must be readable)
 #! replay: c01_parse
